@@ -2,4 +2,5 @@ pub mod core;
 pub mod cw20w;
 pub mod direct;
 pub mod monitor;
+pub mod refmodel;
 pub mod rng;
